@@ -201,6 +201,14 @@ def main_run(prop: str, tier: str, seed: int, replay: Optional[str]) -> int:
     ctx = Ctx(prop, tier, seed, replay)
     code = 0
     try:
+        if replay:
+            rec = json.loads(Path(replay).read_text())
+            if not hasattr(mod, "replay"):
+                raise MachineryError(f"{prop} has no replay support")
+            mod.replay(ctx, rec)
+            ctx.cleanup()
+            print(f"[{prop}] replay {'VIOLATION' if ctx.violations else 'OK'}")
+            return 1 if ctx.violations else 0
         mod.run(ctx)
         ctx.write_evidence(mod.META.get("level", "model_checking"), mod.META.get("rule", ""))
         if ctx.violations:
